@@ -24,30 +24,27 @@ comment is *not* equivalent to whitespace (kernel-checked counterexamples at the
 namespace InfluxQL.C16
 open InfluxQL Gen
 
+/-! ## Locality of `Scan` -/
+
+/-- **C16 (locality).** `Scan` looks at the runes it consumes and at most one rune beyond, and of
+that rune only at its class when it is whitespace: if two delivered streams are `a ++ t1` and
+`a ++ t2`, the continuations `t1`, `t2` are both empty or both start with a whitespace rune, and
+`Scan` on the first stream does not consume beyond `a`, then `Scan` on the second stream returns
+a token of the same kind with the same literal and stops at the same place. -/
+theorem scan_local (t1 t2 : List Char) (r1 r2 : Cursor) (a : List Char)
+    (h1 : r1.chars = a ++ t1) (h2 : r2.chars = a ++ t2) (ht : TailOK t1 t2)
+    (hlen : t1.length ≤ (scan r1).2.rest.length) :
+    (scan r1).1.tok = (scan r2).1.tok ∧ (scan r1).1.lit = (scan r2).1.lit ∧
+    ∃ a', (scan r1).2.chars = a' ++ t1 ∧ (scan r2).2.chars = a' ++ t2 := by
+  obtain ⟨hsig, hl⟩ := scan_loc (t1 := t1) (t2 := t2) ⟨a, h1, h2⟩ ht hlen
+  exact ⟨congrArg Prod.fst hsig, congrArg Prod.snd hsig, hl⟩
+
+/-- **C16 (position erasure).** The significant tokens ahead of a cursor depend only on the
+delivered runes, not on positions, offsets or what was read before. -/
+theorem sigTokens_depends_on_runes_only (r1 r2 : Cursor) (h : r1.chars = r2.chars) :
+    sigTokens r1 = sigTokens r2 := sigTokens_erase r1 r2 h
+
 /-! ## Whitespace substitution -/
-
-theorem tailOK_of_wsRuns {w1 w2 post : List Char} (hw1 : WsRun w1) (hw2 : WsRun w2) :
-    TailOK (w1 ++ post) (w2 ++ post) := by
-  obtain ⟨hn1, ha1⟩ := hw1
-  obtain ⟨hn2, ha2⟩ := hw2
-  cases w1 with
-  | nil => exact absurd rfl hn1
-  | cons c1 x1 =>
-    cases w2 with
-    | nil => exact absurd rfl hn2
-    | cons c2 x2 =>
-      exact Or.inr ⟨c1, x1 ++ post, c2, x2 ++ post, rfl, rfl, ha1 c1 (by simp), ha2 c2 (by simp)⟩
-
-/-- From a cursor standing at a whitespace run the significant tokens are those of what follows
-the run: the run itself (and nothing else) is skipped. -/
-theorem sigTokens_wsRun (g1 g2 : Cursor) (w1 w2 post : List Char) (h1 : g1.chars = w1 ++ post)
-    (h2 : g2.chars = w2 ++ post) (hw1 : WsRun w1) (hw2 : WsRun w2) (hpost : NotWsHead post) :
-    sigTokens g1 = sigTokens g2 := by
-  obtain ⟨t1, c1⟩ := scan_wsRun g1 w1 post h1 hw1 hpost
-  obtain ⟨t2, c2⟩ := scan_wsRun g2 w2 post h2 hw2 hpost
-  rw [sigTokens_step g1, sigTokens_step g2, t1, t2]
-  simp only [reduceCtorEq, if_false, true_or, if_true]
-  exact sigTokens_erase _ _ (by rw [c1, c2])
 
 /-- **C16 (whitespace).** Two delivered streams that differ only in one whitespace run — any
 non-empty run of spaces, tabs and line feeds replaced by any other — have the same sequence of
@@ -64,36 +61,6 @@ theorem ws_subst_tokens (r1 r2 : Cursor) (a w1 w2 post : List Char)
     (fun g1 g2 e1 e2 => sigTokens_wsRun g1 g2 w1 w2 post e1 e2 hw1 hw2 hpost)
 
 /-! ## Comment insertion -/
-
-/-- A comment the scanner reads as exactly one COMMENT token: `/* body */` whose body contains
-no NUL and no earlier `*/`, or `-- body` + line feed whose body contains no line feed and no NUL
-(delivered form: a CR in the text is a line feed here). -/
-inductive IsComment : List Char → Prop
-  | block (body : List Char) (h : commentBodyOK false body = true) :
-      IsComment ('/' :: '*' :: (body ++ ['*', '/']))
-  | line (body : List Char) (h : ∀ c ∈ body, c ≠ '\n' ∧ c ≠ eofRune) :
-      IsComment ('-' :: '-' :: (body ++ ['\n']))
-
-theorem scan_comment (r : Cursor) (cm k : List Char) (hc : IsComment cm) (h : r.chars = cm ++ k) :
-    (scan r).1.tok = .COMMENT ∧ (scan r).2.chars = k := by
-  cases hc with
-  | block body hb => exact scan_blockComment r body k (by simpa using h) hb
-  | line body hb => exact scan_lineComment r body k (by simpa using h) hb
-
-theorem notWsHead_comment (cm k : List Char) (hc : IsComment cm) : NotWsHead (cm ++ k) := by
-  intro c x hx
-  cases hc with
-  | block body hb => simp at hx; rw [← hx.1]; decide
-  | line body hb => simp at hx; rw [← hx.1]; decide
-
-theorem dropEof_comment (cm k : List Char) (hc : IsComment cm) : dropEof (cm ++ k) = cm ++ k := by
-  cases hc with
-  | block body hb =>
-    have : ¬ ('/' : Char) = eofRune := by decide
-    simp [dropEof, this]
-  | line body hb =>
-    have : ¬ ('-' : Char) = eofRune := by decide
-    simp [dropEof, this]
 
 /-- The sufficient condition for a block-comment body in plain words: no NUL and no `*/`
 inside (and it does not begin with `/` right after a `*`, which cannot happen after `/*`). -/
@@ -163,15 +130,6 @@ theorem comment_insert_tokens (r1 r2 : Cursor) (a w wa cm wb post : List Char)
 
 /-! ## The same, for whole texts -/
 
-theorem chars_ofRunes (text : List Char) : (Cursor.ofRunes text).chars = foldCR text ++ [eofRune] := by
-  simp [Cursor.ofRunes, Cursor.chars, stampRunes_map_fst]
-
-theorem notWsHead_append_eof (post : List Char) (h : NotWsHead post) : NotWsHead (post ++ [eofRune]) := by
-  intro c x hx
-  cases post with
-  | nil => simp at hx; rw [← hx.1]; decide
-  | cons d post' => simp at hx; rw [← hx.1]; exact h d post' rfl
-
 /-- `ws_subst_tokens` for two texts whose delivered forms are `a w1 post` and `a w2 post`. -/
 theorem ws_subst_text (text1 text2 a w1 w2 post : List Char)
     (h1 : foldCR text1 = a ++ (w1 ++ post)) (h2 : foldCR text2 = a ++ (w2 ++ post))
@@ -203,96 +161,6 @@ theorem comment_insert_text (text1 text2 a w wa cm wb post : List Char)
   · exact notWsHead_append_eof post hpost
   · obtain ⟨n, hn⟩ := hb
     exact ⟨n, by rw [hn]; simp; omega⟩
-
-/-- How raw whitespace is delivered: folding commutes with concatenation unless a CR LF pair is
-split, and a raw run of space, tab, LF, CR is delivered as a run of space, tab, LF. -/
-theorem foldCR_append (x y : List Char) (h : ¬ (x.getLast? = some '\r' ∧ y.head? = some '\n')) :
-    foldCR (x ++ y) = foldCR x ++ foldCR y := by
-  induction x using foldCR.induct with
-  | case1 => rfl
-  | case2 t ih =>
-    simp only [List.cons_append, foldCR, List.cons.injEq, true_and]
-    apply ih
-    intro hh; apply h
-    cases t <;> simp_all [List.getLast?_cons_cons]
-  | case3 t hne ih =>
-    cases t with
-    | nil =>
-      cases y with
-      | nil => rfl
-      | cons d y' =>
-        have hd : d ≠ '\n' := fun e => h ⟨rfl, by simp [e]⟩
-        simp [foldCR, hd]
-    | cons d t' =>
-      have hd : d ≠ '\n' := fun e => hne t' (by rw [e])
-      simp only [List.cons_append, foldCR_cr_of_ne d _ hd, List.cons.injEq, true_and]
-      rw [← List.cons_append]
-      apply ih
-      intro hh; apply h
-      simpa [List.getLast?_cons_cons] using hh
-  | case4 c t _ hc2 ih =>
-    have hc : c ≠ '\r' := fun e => hc2 e
-    rw [List.cons_append, foldCR_cons_of_ne c _ hc, foldCR_cons_of_ne c _ hc, List.cons_append]
-    congr 1
-    apply ih
-    intro hh; apply h
-    cases t <;> simp_all [List.getLast?_cons_cons]
-
-/-- Raw whitespace: space, tab, line feed, carriage return. -/
-def isRawWs (c : Char) : Bool := isWhitespace c || c == '\r'
-
-theorem foldCR_rawWs (w : List Char) (hne : w ≠ []) (h : ∀ c ∈ w, isRawWs c = true) : WsRun (foldCR w) := by
-  induction w using foldCR.induct with
-  | case1 => exact absurd rfl hne
-  | case2 t ih =>
-    refine ⟨by simp [foldCR], ?_⟩
-    intro c hc
-    simp only [foldCR, List.mem_cons] at hc
-    rcases hc with rfl | hc
-    · decide
-    · by_cases ht : t = []
-      · subst ht; simp [foldCR] at hc
-      · exact (ih ht (fun x hx => h x (by simp [hx]))).2 c hc
-  | case3 t hne' ih =>
-    have e : foldCR ('\r' :: t) = '\n' :: foldCR t := by
-      cases t with
-      | nil => rfl
-      | cons d t' =>
-        have hd : d ≠ '\n' := fun e => hne' t' (by rw [e])
-        exact foldCR_cr_of_ne d t' hd
-    rw [e]
-    refine ⟨by simp, ?_⟩
-    intro c hc
-    simp only [List.mem_cons] at hc
-    rcases hc with rfl | hc
-    · decide
-    · by_cases ht : t = []
-      · subst ht; simp [foldCR] at hc
-      · exact (ih ht (fun x hx => h x (by simp [hx]))).2 c hc
-  | case4 c t _ hc2 ih =>
-    have hc : c ≠ '\r' := fun e => hc2 e
-    rw [foldCR_cons_of_ne c _ hc]
-    refine ⟨by simp, ?_⟩
-    intro x hx
-    simp only [List.mem_cons] at hx
-    rcases hx with rfl | hx
-    · have := h x (by simp)
-      simpa [isRawWs, hc] using this
-    · by_cases ht : t = []
-      · subst ht; simp [foldCR] at hx
-      · exact (ih ht (fun y hy => h y (by simp [hy]))).2 x hx
-
-theorem notWsHead_foldCR (post : List Char) (h : ∀ c x, post = c :: x → isRawWs c = false) :
-    NotWsHead (foldCR post) := by
-  intro c x hx
-  cases post with
-  | nil => simp [foldCR] at hx
-  | cons d post' =>
-    have hd := h d post' rfl
-    simp only [isRawWs, Bool.or_eq_false_iff, beq_eq_false_iff_ne] at hd
-    rw [foldCR_cons_of_ne d _ hd.2] at hx
-    simp at hx
-    rw [← hx.1]; exact hd.1
 
 /-- **C16 (whitespace), raw text.** In a text `pre w post` replace the maximal run `w` of spaces,
 tabs, LF, CR (CRLF included) by any other non-empty such run: if the run starts at a token
@@ -406,6 +274,16 @@ theorem comment_before_regex_lookahead_call_open :
 theorem comment_before_regex_lookahead_regex_op :
     parsesTo ['a', ' ', '=', '~', ' ', ' ', '/', 'x', '/'] ['a', ' ', '=', '~', ' ', '/', 'x', '/'] ∧
     isRejected ['a', ' ', '=', '~', ' ', '/', '*', 'c', '*', '/', ' ', '/', 'x', '/'] = true := by
+  decide +kernel
+
+/-- Where a regular expression is *required* (after `=~`, `!~`) or is the intended call argument,
+a `-- …` comment in front of it breaks the parse as well: the look-ahead sees `-`, reports "no
+regex here", and the `/` is then scanned as the division operator. -/
+theorem line_comment_before_regex_lookahead :
+    parsesTo ['a', ' ', '=', '~', ' ', '\n', ' ', '/', 'x', '/'] ['a', ' ', '=', '~', ' ', '/', 'x', '/'] ∧
+    isRejected ['a', ' ', '=', '~', ' ', '-', '-', 'c', '\n', ' ', '/', 'x', '/'] = true ∧
+    parsesTo ['f', '(', 'a', ',', ' ', '/', 'x', '/', ')'] ['f', '(', 'a', ',', ' ', '/', 'x', '/', ')'] ∧
+    isRejected ['f', '(', 'a', ',', ' ', '-', '-', 'c', '\n', ' ', '/', 'x', '/', ')'] = true := by
   decide +kernel
 
 /-- The two texts of the first counterexample nevertheless have the same significant tokens
